@@ -9,8 +9,11 @@ import (
 	"strings"
 	"sync"
 	"testing"
+	"time"
 
 	"github.com/basecamp/kamal-proxy/internal/verif/memnet"
+	"github.com/basecamp/kamal-proxy/internal/verif/vsched"
+	"github.com/basecamp/kamal-proxy/internal/verif/vsync"
 )
 
 func init() { checks["C13"] = checkC13 }
@@ -113,10 +116,90 @@ func c13Setup(w *World) error {
 			return err
 		}
 	}
+	// one service mounted on two prefixes (both stripped), plain and with request buffering: requests of the same
+	// service with different matched prefixes in progress at the same time
+	for i, host := range []string{"m6.example.com", "m7.example.com"} {
+		tn := fmt.Sprintf("t6%c:80", 'a'+i)
+		w.AddTarget(tn)
+		a := deployArgs(fmt.Sprintf("svc6%c", 'a'+i), []string{tn}, []string{host}, []string{"/api", "/app"})
+		a.ServiceOptions.StripPrefix = true
+		a.ServiceOptions.TLSEnabled = false
+		if i == 1 {
+			a.TargetOptions.BufferRequests = true
+			a.TargetOptions.MaxMemoryBufferSize = 40000
+		}
+		if r := w.Deploy(a); r.Err != nil {
+			return r.Err
+		}
+	}
 	c13idsMu.Lock()
 	c13ids = map[string]string{}
 	c13idsMu.Unlock()
 	return nil
+}
+
+// c13Concurrent: two requests of one service that matched different prefixes overlap (held by a pause, or one of
+// them uploading slowly into the request buffer); each must reach the target with its own prefix removed.
+func c13Concurrent(kind string) func(w *World) []Violation {
+	return func(w *World) []Violation {
+		var vs []Violation
+		add := func(sig, d string) { vs = append(vs, Violation{"C13", sig, "concurrent " + kind + ": " + d}) }
+		c13seq++
+		m1, m2 := fmt.Sprintf("mk-%d-1", c13seq), fmt.Sprintf("mk-%d-2", c13seq)
+		var wg vsync.WaitGroup
+		wg.Add(2)
+		var o1, o2 *ReqObs
+		switch kind {
+		case "held-by-pause":
+			w.Pause("svc6a", vD, vMaxPause)
+			vsched.GoTagged("client", func() {
+				defer wg.Done()
+				o1 = w.Do(ReqSpec{ID: m1, Host: "m6.example.com", Path: "/api/one%2Fa?x=1;y", Header: [][2]string{{"X-Verif-Marker", m1}}})
+			})
+			time.Sleep(50 * time.Millisecond)
+			vsched.GoTagged("client", func() {
+				defer wg.Done()
+				o2 = w.Do(ReqSpec{ID: m2, Host: "m6.example.com", Path: "/app/two", Header: [][2]string{{"X-Verif-Marker", m2}}})
+			})
+			time.Sleep(50 * time.Millisecond)
+			w.Resume("svc6a")
+		case "slow-buffered-upload":
+			vsched.GoTagged("client", func() {
+				defer wg.Done()
+				o1 = w.Do(ReqSpec{ID: m1, Method: "POST", Host: "m7.example.com", Path: "/api/upload%2Fa?k=v;w", Header: [][2]string{{"X-Verif-Marker", m1}},
+					BodyChunks: [][]byte{[]byte("hello "), []byte("world")}, BodyGap: 200 * time.Millisecond})
+			})
+			time.Sleep(50 * time.Millisecond)
+			vsched.GoTagged("client", func() {
+				defer wg.Done()
+				o2 = w.Do(ReqSpec{ID: m2, Host: "m7.example.com", Path: "/app/two", Header: [][2]string{{"X-Verif-Marker", m2}}})
+			})
+		}
+		wg.Wait()
+		want := map[string]string{m1: "/one%2Fa?x=1;y", m2: "/two"}
+		if kind == "slow-buffered-upload" {
+			want[m1] = "/upload%2Fa?k=v;w"
+		}
+		seen := map[string]string{}
+		for _, e := range w.Net.Events() {
+			if e.Kind == "req" {
+				if mk := e.Header.Get("X-Verif-Marker"); mk == m1 || mk == m2 {
+					seen[mk] = e.URI
+				}
+			}
+		}
+		for mk, wu := range want {
+			if seen[mk] != wu {
+				add("prefix-not-stripped-under-concurrency", fmt.Sprintf("target saw request-target %q, expected %q", seen[mk], wu))
+			}
+		}
+		for _, o := range []*ReqObs{o1, o2} {
+			if o == nil || o.Status != 200 {
+				add("concurrent-request-failed", fmt.Sprint(o != nil && o.Done))
+			}
+		}
+		return vs
+	}
 }
 
 var c13seq int
@@ -438,6 +521,9 @@ func c13Cases(tier string) []ECase {
 		}
 	}
 	var cases []ECase
+	for _, k := range []string{"held-by-pause", "slow-buffered-upload"} {
+		cases = append(cases, ECase{Name: "concurrent " + k, Class: "concurrent " + k, Run: c13Concurrent(k)})
+	}
 	for _, in := range ins {
 		in := in
 		cases = append(cases, ECase{Name: in.name(), Class: fmt.Sprintf("%s %s hdr=%d body=%s resp=%s fwd=%v", c13Mounts[in.mount].name, in.method, in.hdr, in.body, in.resp, in.fwd), Run: c13Run(in)})
@@ -450,7 +536,7 @@ func checkC13(t *testing.T, job *Job, res *Result) {
 	if job.Replay != nil {
 		tier = job.Replay.Tier
 	}
-	res.Rule = "requests built from raw bytes through Server.buildHandler -> router -> service -> target -> real http.Transport -> in-memory echo target; core = every path of <=3 (thorough <=4) segments over {a, a%2Fb, %41, a%20b, app, empty, ;p=1, a+b, %E2%82%AC} with and without trailing slash x 5 mounts (/, /app stripped, /app unstripped, /app/v2 beside /app, / with request+response buffering) x 8 raw queries, other dimensions rotating; look-alike paths; methods x bodies (none, 1B, 70kB, 70kB chunked) x 10 responses (incl. 103 early hints, target's own 503) x 6 header sets x header forwarding on/off; oracle: wire request and client response compared byte for byte with what was sent"
+	res.Rule = "requests built from raw bytes through Server.buildHandler -> router -> service -> target -> real http.Transport -> in-memory echo target; core = every path of <=3 (thorough <=4) segments over {a, a%2Fb, %41, a%20b, app, empty, ;p=1, a+b, %E2%82%AC} with and without trailing slash x 5 mounts (/, /app stripped, /app unstripped, /app/v2 beside /app, / with request+response buffering) x 8 raw queries, other dimensions rotating; look-alike paths; methods x bodies (none, 1B, 70kB, 70kB chunked) x 10 responses (incl. 103 early hints, target's own 503) x 6 header sets x header forwarding on/off; oracle: wire request and client response compared byte for byte with what was sent; plus two overlapping requests of one service mounted on two stripped prefixes (both held by a pause; one uploading slowly into the request buffer)"
 	res.Bounds = "path segments<=3 quick / <=4 thorough; full product of the path x mount x query core"
 	runE(t, job, res, &ESpec{Prop: "C13", Setup: c13Setup, Cases: c13Cases(tier), Batch: 400})
 }
